@@ -125,3 +125,69 @@ def _(self, order: Ref("BetfairOrder")):
     raises(ControlError, when=not valid_betfair(order), iff=True, label="invalid_order",
            modifies=[(order, "status"), (order, "complete"), (order, "violation_msg"), (order, "date_time_status_update"),
                      (order.update_data, "size_reduction"), (order.update_data, "new_price")])
+
+
+# ----------------------------------------------------------------------------- Betdaq orders (second instantiation of the shared validators)
+def betdaq_band(t, lo, hi, st):
+    return lo <= t and t < hi and exists_int(lambda k: k >= 0 and t == lo + k * st)
+
+
+def on_betdaq(t):
+    """Betdaq ladder written from its increment table: 1.01-3 by 0.01, 3-4 by 0.05, 4-10 by 0.1, 10-20 by 0.5, 20-50 by 1, 50-200 by 2, 200-1000 by 5"""
+    return (betdaq_band(t, 1.01, 3, 0.01) or betdaq_band(t, 3, 4, 0.05) or betdaq_band(t, 4, 10, 0.1) or betdaq_band(t, 10, 20, 0.5)
+            or betdaq_band(t, 20, 50, 1) or betdaq_band(t, 50, 200, 2) or betdaq_band(t, 200, 1000, 5) or t == 1000)
+
+
+def valid_size_betdaq(ot):
+    return ot.size is not None and ot.size > 0 and penny(ot.size)
+
+
+def valid_betdaq(order):
+    return order.order_type.ORDER_TYPE == OrderTypes.LIMIT and valid_size_betdaq(order.order_type) and order.order_type.price is not None and on_betdaq(order.order_type.price)
+
+
+ON_ERROR_MODS = 0
+
+
+@contract("flumine/controls/tradingcontrols.py::OrderValidation._validate_size", tags=["C17"], variant="betdaq")
+def _(self, order: Ref("BetdaqOrder")):
+    raises(ControlError, when=not valid_size_betdaq(order.order_type), iff=True, label="invalid_size",
+           modifies=[(order, "status"), (order, "complete"), (order, "violation_msg"), (order, "date_time_status_update"),
+                     (order.update_data, "size_reduction"), (order.update_data, "new_price")])
+
+
+@contract("flumine/controls/tradingcontrols.py::OrderValidation._validate_betdaq_price", tags=["C17"])
+def _(self, order: Ref("BetdaqOrder")):
+    raises(ControlError, when=not (order.order_type.price is not None and on_betdaq(order.order_type.price)), iff=True, label="invalid_price",
+           modifies=[(order, "status"), (order, "complete"), (order, "violation_msg"), (order, "date_time_status_update"),
+                     (order.update_data, "size_reduction"), (order.update_data, "new_price")])
+
+
+@contract("flumine/controls/tradingcontrols.py::OrderValidation._validate_betdaq_min_size", tags=["C17"])
+def _(self, order: Ref("BetdaqOrder"), order_type: ATOM):
+    requires("client_bound", order.client is not None)
+
+
+@contract("flumine/controls/tradingcontrols.py::OrderValidation._validate_betdaq_order", tags=["C17"])
+def _(self, order: Ref("BetdaqOrder")):
+    requires("client_bound", order.client is not None)
+    raises(ControlError, when=not valid_betdaq(order), iff=True, label="invalid_order",
+           modifies=[(order, "status"), (order, "complete"), (order, "violation_msg"), (order, "date_time_status_update"),
+                     (order.update_data, "size_reduction"), (order.update_data, "new_price")])
+
+
+@contract("flumine/controls/tradingcontrols.py::OrderValidation._validate", tags=["C17"])
+def _(self, order: Ref("BetfairOrder"), package_type: ATOM):
+    requires("client_bound", order.client is not None)
+    requires("ladder_domain", ladder_domain(order.order_type))
+    raises(ControlError, when=not valid_betfair(order), iff=True, label="invalid_order",
+           modifies=[(order, "status"), (order, "complete"), (order, "violation_msg"), (order, "date_time_status_update"),
+                     (order.update_data, "size_reduction"), (order.update_data, "new_price")])
+
+
+@contract("flumine/controls/tradingcontrols.py::OrderValidation._validate", tags=["C17"], variant="betdaq")
+def _(self, order: Ref("BetdaqOrder"), package_type: ATOM):
+    requires("client_bound", order.client is not None)
+    raises(ControlError, when=not valid_betdaq(order), iff=True, label="invalid_order",
+           modifies=[(order, "status"), (order, "complete"), (order, "violation_msg"), (order, "date_time_status_update"),
+                     (order.update_data, "size_reduction"), (order.update_data, "new_price")])
